@@ -457,13 +457,19 @@ func (m *Mux) serveHTTP(w http.ResponseWriter, r *http.Request) error {
 	acceptEncoding := negotiateContentEncoding(r.Header, m.opts.encodingTypeOffers)
 
 	var resp io.Writer = w
+	var zc io.Closer // the compressing writer, while it still has to be closed
 	if cz := m.opts.compressors[acceptEncoding]; cz != nil {
 		w.Header().Set("Content-Encoding", acceptEncoding)
 		z, err := cz.Compress(w)
 		if err != nil {
 			return err
 		}
-		defer z.Close()
+		zc = z
+		defer func() {
+			if zc != nil {
+				zc.Close()
+			}
+		}()
 		resp = z
 	}
 
@@ -506,6 +512,9 @@ func (m *Mux) serveHTTP(w http.ResponseWriter, r *http.Request) error {
 	}
 	if herr != nil {
 		if !stream.sentHeader {
+			// Nothing went through the compressor: drop it, so that closing
+			// it does not append its header and trailer to the error body.
+			zc = nil
 			w.Header().Set("Content-Encoding", "identity") // try to avoid gzip
 		}
 		m.encError(w, r, herr)
